@@ -27,6 +27,10 @@ pub const C19: u32 = 1 << 19;
 pub const PARSE_LINK: u32 = 1 << 24;
 /// the same link, evaluated on the root of each exploration only
 pub const PARSE_LINK_ROOT: u32 = 1 << 25;
+/// C15 on bulk families: every state is printed and the text is read back by the harness's diagram reader (cells, side,
+/// move number must describe the state); the full parse round trip runs once per distinct TEXT per worker (parsing is a
+/// function of the text; the un-deduplicated round trip runs on the smaller families)
+pub const C15_TEXT: u32 = 1 << 26;
 
 pub fn check_bit(id: &str) -> u32 {
     match id {
@@ -733,6 +737,9 @@ pub fn visit(ctx: &mut Ctx, node: &Node) -> Vec<Successor> {
     if ctx.on(C15) {
         parse_link(ctx, node, None);
     }
+    if ctx.on(C15_TEXT) {
+        c15_text(ctx, node);
+    }
 
     // ----- C08 state part -----
     if ctx.on(C08) {
@@ -1081,6 +1088,63 @@ pub fn turn_start_oracles(ctx: &mut Ctx, node: &Node, via: Option<&Action>) {
     }
     if ctx.on(PARSE_LINK) || (ctx.on(PARSE_LINK_ROOT) && via.is_none()) {
         parse_link(ctx, node, via);
+    }
+}
+
+thread_local! {
+    static TEXT_SEEN: RefCell<FxSet<u64>> = RefCell::new(FxSet::default());
+}
+
+/// C15 on every state of a bulk family: the printed text must show this state's board, side and move number (harness's
+/// own reader); texts not yet seen by this worker also go through the full parse round trip.
+fn c15_text(ctx: &mut Ctx, node: &Node) {
+    let gs = &node.gs;
+    ctx.query = "to_string";
+    let text = gs.to_string();
+    ctx.query = "";
+    ctx.stats.add("c15_states_printed_and_read_back", 1);
+    match read_diagram(&text) {
+        Err(e) => ctx.fail("printed position does not have the documented grid", e, String::new()),
+        Ok((header, cells)) => {
+            let mut bad = None;
+            for i in 0..64usize {
+                let exp = if node.board[i] != rm::EMPTY {
+                    rm::cell_letter(node.board[i])
+                } else if rm::is_trap(i) {
+                    'x'
+                } else {
+                    ' '
+                };
+                if cells[i] != exp {
+                    bad = Some((i, cells[i], exp));
+                    break;
+                }
+            }
+            // header: a move number followed by a side letter (g / w = Gold, s / b = Silver: what the parser accepts)
+            let h = header.trim();
+            let digits: String = h.chars().take_while(|c| c.is_ascii_digit()).collect();
+            let side = h[digits.len()..].chars().next();
+            let header_ok = digits.parse::<usize>().ok() == Some(gs.move_number()) && h.len() == digits.len() + 1 && match side {
+                Some('g') | Some('w') => gs.is_p1_turn_to_move(),
+                Some('s') | Some('b') => !gs.is_p1_turn_to_move(),
+                _ => false,
+            };
+            if let Some((i, got, exp)) = bad {
+                ctx.fail("parse(print(s)) differs from s", format!("the printed diagram shows {:?} on {}", got, rm::sq_name(i)), format!("{:?} (the state's board)", exp));
+            } else if !header_ok {
+                ctx.fail("parse(print(s)) differs from s", format!("printed header {:?}", header), format!("move number {} and {} to move", gs.move_number(), if gs.is_p1_turn_to_move() { "Gold" } else { "Silver" }));
+            }
+        }
+    }
+    let fresh = TEXT_SEEN.with(|s| {
+        let mut s = s.borrow_mut();
+        if s.len() > 2_000_000 {
+            s.clear();
+        }
+        s.insert(sip(&text))
+    });
+    if fresh {
+        parse_link(ctx, node, None);
     }
 }
 
